@@ -2,3 +2,4 @@ pub mod ast;
 pub mod eval;
 pub mod print;
 pub mod prog;
+pub mod mutate;
